@@ -407,4 +407,615 @@ theorem allPres : ∀ n, AllPres s K n
   | 0 => allPres_zero
   | n + 1 => allPres_succ (allPres n)
 
+
+/-! ### relational pass: the line-mode run from `lineSt st` mirrors the file-mode run from `st` -/
+
+/-- relational postcondition of the file-mode run from `st`: `line` is the outcome of the line-mode run from `lineSt st` -/
+def SP (s : TokStream) (K : Nat) (line : Res (α × PState)) : α → PState → Prop :=
+  fun a st1 => Inv s st1 ∧ (Bad K st1 ∨ line = .ok (a, lineSt st1))
+
+theorem wp_SP_of_pres {m : PM α} {P : α → PState → Prop} {st : PState} (h : wp m (fun _ st' => BadI s K st') st) :
+    wp m (fun a st1 => Inv s st1 ∧ (Bad K st1 ∨ P a st1)) st :=
+  wp_conseq h (fun _ _ h => ⟨h.1, Or.inl h.2⟩)
+
+theorem SP_of_badI {P : Prop} {st1 : PState} (h : BadI s K st1) :
+    Inv s st1 ∧ (Bad K st1 ∨ P) := ⟨h.1, Or.inl h.2⟩
+
+theorem app_bind_getSt (f : PState → PM β) (st' : PState) : (getSt >>= f) st' = f st' st' := rfl
+theorem app_bind_nextToken (s : TokStream) (f : Unit → PM β) (st' : PState) : (nextToken s >>= f) st' = f () (advance s st') := rfl
+theorem app_bind_pure (a : α) (f : α → PM β) (st' : PState) : ((pure a : PM α) >>= f) st' = f a st' := rfl
+theorem app_bind_ite (c : Prop) [Decidable c] (a b : PM α) (f : α → PM β) (st' : PState) :
+    ((if c then a else b) >>= f) st' = if c then (a >>= f) st' else (b >>= f) st' := by split <;> rfl
+theorem app_ite (c : Prop) [Decidable c] (a b : PM α) (st' : PState) :
+    (if c then a else b) st' = if c then a st' else b st' := by split <;> rfl
+theorem app_pure (a : α) (st' : PState) : (pure a : PM α) st' = .ok (a, st') := rfl
+theorem app_nextToken (s : TokStream) (st' : PState) : nextToken s st' = .ok ((), advance s st') := rfl
+theorem app_bind_of_eq {m : PM α} {f : α → PM β} {st' : PState} {b : α} {stm' : PState} (h : m st' = .ok (b, stm')) :
+    (m >>= f) st' = f b stm' := by
+  show PM.bind m f st' = _
+  unfold PM.bind; rw [h]
+theorem app_bind_assoc (m : PM α) (g : α → PM β) (f : β → PM γ) (st' : PState) :
+    ((m >>= g) >>= f) st' = (m >>= fun x => g x >>= f) st' := by
+  show PM.bind (PM.bind m g) f st' = PM.bind m (fun x => PM.bind (g x) f) st'
+  unfold PM.bind
+  cases m st' with
+  | ok r => obtain ⟨a, st2⟩ := r; rfl
+  | goPanic p => rfl
+  | outOfFuel => rfl
+
+theorem lineTok_endtest (x : Bool) (t : Tok) :
+    ((x && (lineTok t).type != .EOF) && (lineTok t).type != .EOL) = ((x && t.type != .EOF) && t.type != .EOL) := by
+  rcases lineTok_type_cases t with ⟨h, h'⟩ | ⟨_, h⟩
+  · rw [h, h']; cases x <;> rfl
+  · rw [h]
+theorem lineTok_endtest3 (X : Prop) (t : Tok) :
+    ((X ∧ ¬ (lineTok t).type = .EOF) ∧ ¬ (lineTok t).type = .EOL) = ((X ∧ ¬ t.type = .EOF) ∧ ¬ t.type = .EOL) := by
+  rcases lineTok_type_cases t with ⟨h, h'⟩ | ⟨_, h⟩
+  · rw [h, h']; simp
+  · rw [h]
+theorem lineTok_endtest2 (X : Prop) (t : Tok) :
+    ((X ∨ (lineTok t).type = .EOF) ∨ (lineTok t).type = .EOL) = ((X ∨ t.type = .EOF) ∨ t.type = .EOL) := by
+  rcases lineTok_type_cases t with ⟨h, h'⟩ | ⟨_, h⟩
+  · rw [h, h']; simp
+  · rw [h]
+
+theorem ite_of_both {c : Prop} [Decidable c] {A B : Prop} (h1 : c → A) (h2 : ¬c → B) : if c then A else B := by
+  split
+  · exact h1 (by assumption)
+  · exact h2 (by assumption)
+
+macro "sv" : tactic => `(tactic| try simp only [wp_bind, wp_getSt, wp_ite, wp_nextToken, wp_pure, wp_setCont, wp_pushErr,
+  wp_outOfFuel, wp_goPanic, advance_cur, advance_prev, SP,
+  app_bind_getSt, app_bind_nextToken, app_bind_pure, app_bind_ite, app_ite, app_pure, app_nextToken, app_bind_assoc,
+  lineSt_cur, lineSt_peek, lineSt_prev, lineSt_cont, lineSt_errors, lineSt_nextNewline, lineSt_prevNewline, lineSt_idx,
+  advance_lineSt, lineTok_lit, lineTok_hadWs, lineTok_hadNl, lineTok_posAfter, lineTok_lastNl, lineTok_num,
+  lineTok_prefix, lineTok_infix, lineTok_postfix, lineTok_prec, lineTok_type, lineTok_beq, lineTok_bne, lineTok_self,
+  lineTok_endtest, lineTok_endtest2, lineTok_endtest3,
+  ne_eq, reduceCtorEq, not_false_eq_true, not_true_eq_false, ↓reduceIte, or_true, and_true, Tok.tk, Option.map_some,
+  Bool.and_eq_true, Bool.or_eq_true, decide_eq_true_eq, bne_iff_ne, beq_iff_eq, Bool.not_eq_true', and_self, true_and, or_self,
+  false_and, and_false, or_false, false_or, true_or, *])
+macro "svd" : tactic => `(tactic| simp only [wp_bind, wp_getSt, wp_ite, wp_nextToken, wp_pure, wp_setCont, wp_pushErr,
+  wp_outOfFuel, wp_goPanic, advance_cur, advance_prev, SP,
+  app_bind_getSt, app_bind_nextToken, app_bind_pure, app_bind_ite, app_ite, app_pure, app_nextToken, app_bind_assoc,
+  lineSt_cur, lineSt_peek, lineSt_prev, lineSt_cont, lineSt_errors, lineSt_nextNewline, lineSt_prevNewline, lineSt_idx,
+  advance_lineSt, lineTok_lit, lineTok_hadWs, lineTok_hadNl, lineTok_posAfter, lineTok_lastNl, lineTok_num,
+  lineTok_prefix, lineTok_infix, lineTok_postfix, lineTok_prec, lineTok_type, lineTok_beq, lineTok_bne, lineTok_self,
+  lineTok_endtest, lineTok_endtest2, lineTok_endtest3,
+  ne_eq, reduceCtorEq, not_false_eq_true, not_true_eq_false, ↓reduceIte, or_true, and_true, Tok.tk, Option.map_some,
+  Bool.and_eq_true, Bool.or_eq_true, decide_eq_true_eq, bne_iff_ne, beq_iff_eq, Bool.not_eq_true', and_self, true_and, or_self,
+  false_and, and_false, or_false, false_or, true_or, *])
+
+
+set_option hygiene false in
+macro "badcase" : tactic => `(tactic| repeat' ((try simp only [SP]); first
+  | done
+  | exact SP_of_badI (by badc)
+  | (refine wp_conseq (?_ : wp _ (fun _ st' => BadI s K st') _) ?_
+     · pres
+     intro _ _ _)
+  | (refine ite_of_both (fun _ => ?_) (fun _ => ?_))
+  | split))
+
+set_option hygiene false in
+macro "scall " t:term : tactic => `(tactic| first
+  | exact $t
+  | (refine wp_conseq ($t) ?_
+     rintro b stm ⟨hi', hb' | hs'⟩
+     · (have hB' : BadI s K stm := ⟨hi', hb'⟩
+        badcase)
+     simp only [app_bind_of_eq hs']))
+
+/-! leaves -/
+
+theorem expectPeek_sim (t : TokType) (h1 : t ≠ .EOF) (h2 : t ≠ .EOL) (st : PState) (hi : Inv s st) :
+    wp (expectPeek s t) (SP s K (expectPeek (asLine s) t (lineSt st))) st := by
+  unfold expectPeek peekError
+  sv
+  split
+  · sv; exact inv_adv hi
+  · split
+    · sv; exact SP_of_badI (BadI.setCont hi)
+    · apply errorLine_wp
+      split
+      · sv
+      · sv; exact SP_of_badI (BadI.pushErr _ hi)
+
+theorem mapPairError_sim (st : PState) (hi : Inv s st) :
+    wp (mapPairError s) (SP s K (mapPairError (asLine s) (lineSt st))) st := by
+  refine wp_SP_of_pres ?_
+  unfold mapPairError peekError
+  wv
+  split
+  · exact BadI.setCont hi
+  · apply errorLine_wp
+    split
+    · wv
+    · wv; exact BadI.pushErr _ hi
+
+theorem noPrefix_bad (st : PState) (hi : Inv s st) : wp (noPrefixParseFnError s) (fun _ st' => BadI s K st') st := by
+  unfold noPrefixParseFnError
+  wv
+  apply errorLine_wp
+  wv; exact BadI.pushErr _ hi
+
+theorem parseComment_sim (st : PState) (hi : Inv s st) (hc : lineTok st.cur = st.cur) :
+    wp parseComment (SP s K (parseComment (lineSt st))) st := by
+  unfold parseComment
+  sv
+  split
+  · split
+    · sv; exact SP_of_badI (BadI.setCont hi)
+    · sv
+  · split
+    · sv
+    · sv
+
+theorem parseIdentifier_sim (st : PState) (hi : Inv s st) (hc : lineTok st.cur = st.cur) :
+    wp (parseIdentifier s) (SP s K (parseIdentifier (asLine s) (lineSt st))) st := by
+  unfold parseIdentifier parsePostfixExpression
+  sv
+  cases hl : lookup postfixRegs st.peek.type with
+  | none => sv
+  | some fn =>
+    cases fn
+    have hp : lineTok st.peek = st.peek := lineTok_self (fun e => by rw [e, tblE.2.2.2.2.2.2.1] at hl; cases hl)
+    sv
+    exact inv_adv hi
+
+theorem parseFloatLiteral_sim (st : PState) (hi : Inv s st) (hc : lineTok st.cur = st.cur) :
+    wp (parseFloatLiteral s) (SP s K (parseFloatLiteral (asLine s) (lineSt st))) st := by
+  unfold parseFloatLiteral
+  sv
+  split
+  · sv
+  · apply errorLine_wp; sv; exact SP_of_badI (BadI.pushErr _ hi)
+
+theorem parseIntegerLiteral_sim (st : PState) (hi : Inv s st) (hc : lineTok st.cur = st.cur) :
+    wp (parseIntegerLiteral s) (SP s K (parseIntegerLiteral (asLine s) (lineSt st))) st := by
+  unfold parseIntegerLiteral
+  sv
+  split
+  · sv
+  · sv; exact parseFloatLiteral_sim st hi hc
+
+theorem parseBoolean_sim (st : PState) (hi : Inv s st) (hc : lineTok st.cur = st.cur) :
+    wp parseBoolean (SP s K (parseBoolean (lineSt st))) st := by
+  unfold parseBoolean; sv
+theorem parseStringLiteral_sim (st : PState) (hi : Inv s st) (hc : lineTok st.cur = st.cur) :
+    wp parseStringLiteral (SP s K (parseStringLiteral (lineSt st))) st := by
+  unfold parseStringLiteral; sv
+theorem parseControlExpression_sim (st : PState) (hi : Inv s st) (hc : lineTok st.cur = st.cur) :
+    wp parseControlExpression (SP s K (parseControlExpression (lineSt st))) st := by
+  unfold parseControlExpression; sv
+
+
+
+theorem parseFunctionParametersLoop_sim (hE : EndAt s K) : ∀ (fuel : Nat) (acc : NList) (st : PState), Inv s st →
+    wp (parseFunctionParametersLoop s fuel acc) (SP s K (parseFunctionParametersLoop (asLine s) fuel acc (lineSt st))) st
+  | 0, _, _, _ => by unfold parseFunctionParametersLoop; trivial
+  | n + 1, acc, st, hi => by
+    unfold parseFunctionParametersLoop parameter
+    sv
+    split
+    · by_cases hb : Bad K (advance s (advance s st))
+      · refine wp_SP_of_pres ?_
+        exact parseFunctionParametersLoop_pres n _ _ ⟨inv_adv (inv_adv hi), hb⟩
+      · have hc := lineTok_self (cur_real hE (inv_adv (inv_adv hi)) hb)
+        simp only [advance_cur] at hc
+        sv
+        exact parseFunctionParametersLoop_sim hE n _ _ (inv_adv (inv_adv hi))
+    · sv
+
+theorem parseFunctionParameters_sim (hE : EndAt s K) (fuel : Nat) (st : PState) (hi : Inv s st) :
+    wp (parseFunctionParameters s fuel) (SP s K (parseFunctionParameters (asLine s) fuel (lineSt st))) st := by
+  by_cases hb : Bad K (advance s st)
+  · refine wp_SP_of_pres ?_
+    unfold parseFunctionParameters parameter
+    wv
+    split
+    · exact ⟨inv_adv hi, hb⟩
+    · have hB : BadI s K (advance s st) := ⟨inv_adv hi, hb⟩
+      refine wp_conseq (parseFunctionParametersLoop_pres fuel _ _ hB) ?_
+      intro ids st1 h1
+      wv
+      refine wp_conseq (expectPeek_pres _ st1 h1) ?_
+      intro b st2 h2
+      presLeaf
+  · have hc := lineTok_self (cur_real hE (inv_adv hi) hb)
+    simp only [advance_cur] at hc
+    unfold parseFunctionParameters parameter
+    sv
+    split
+    · sv; exact inv_adv hi
+    · sv
+      refine wp_conseq (parseFunctionParametersLoop_sim hE fuel _ _ (inv_adv hi)) ?_
+      rintro ids st1 ⟨hi1, hb1 | hs1⟩
+      · have hB1 : BadI s K st1 := ⟨hi1, hb1⟩
+        refine wp_conseq (expectPeek_pres _ st1 hB1) ?_
+        intro b st2 h2
+        split
+        · exact SP_of_badI h2
+        · refine wp_SP_of_pres ?_; presLeaf
+      · simp only [app_bind_of_eq hs1]
+        refine wp_conseq (expectPeek_sim (K := K) _ (by decide) (by decide) st1 hi1) ?_
+        rintro b st2 ⟨hi2, hb2 | hs2⟩
+        · have hB2 : BadI s K st2 := ⟨hi2, hb2⟩
+          split
+          · first | exact SP_of_badI hB2 | (sv; done) | (sv; exact SP_of_badI hB2)
+          · split
+            · first | exact SP_of_badI hB2 | (sv; done) | (sv; exact SP_of_badI hB2)
+            · refine wp_SP_of_pres ?_; presLeaf
+        · simp only [app_bind_of_eq hs2]
+          split
+          · sv
+          · split
+            · sv
+            · sv
+              apply errorLine_wp
+              sv
+              exact SP_of_badI (BadI.pushErr _ hi2)
+
+structure AllSim (s : TokStream) (K : Nat) (n : Nat) : Prop where
+  pE : ∀ P st, Inv s st → wp (parseExpression s n P) (SP s K (parseExpression (asLine s) n P (lineSt st))) st
+  pLoop : ∀ P left st, Inv s st → wp (parseExpressionLoop s n P left) (SP s K (parseExpressionLoop (asLine s) n P left (lineSt st))) st
+  pPre : ∀ fn st, Inv s st → wp (prefixDispatch s n fn) (SP s K (prefixDispatch (asLine s) n fn (lineSt st))) st
+  pInf : ∀ fn left st, Inv s st → wp (infixDispatch s n fn left) (SP s K (infixDispatch (asLine s) n fn left (lineSt st))) st
+  pStmt : ∀ st, Inv s st → wp (parseStatement s n) (SP s K (parseStatement (asLine s) n (lineSt st))) st
+  pRet : ∀ st, Inv s st → wp (parseReturnStatement s n) (SP s K (parseReturnStatement (asLine s) n (lineSt st))) st
+  pArr : ∀ st, Inv s st → wp (parseArrayLiteral s n) (SP s K (parseArrayLiteral (asLine s) n (lineSt st))) st
+  pGrp : ∀ st, Inv s st → wp (parseGroupedExpression s n) (SP s K (parseGroupedExpression (asLine s) n (lineSt st))) st
+  pPfx : ∀ st, Inv s st → wp (parsePrefixExpression s n) (SP s K (parsePrefixExpression (asLine s) n (lineSt st))) st
+  pLam : ∀ left more st, Inv s st → wp (parseLambdaMulti s n left more) (SP s K (parseLambdaMulti (asLine s) n left more (lineSt st))) st
+  pInfix : ∀ left st, Inv s st → wp (parseInfixExpression s n left) (SP s K (parseInfixExpression (asLine s) n left (lineSt st))) st
+  pFor : ∀ st, Inv s st → wp (parseForExpression s n) (SP s K (parseForExpression (asLine s) n (lineSt st))) st
+  pIf : ∀ st, Inv s st → wp (parseIfExpression s n) (SP s K (parseIfExpression (asLine s) n (lineSt st))) st
+  pBlk : ∀ st, Inv s st → wp (parseBlockStatement s n) (SP s K (parseBlockStatement (asLine s) n (lineSt st))) st
+  pBlkLoop : ∀ acc st, Inv s st → wp (parseBlockLoop s n acc) (SP s K (parseBlockLoop (asLine s) n acc (lineSt st))) st
+  pFn : ∀ st, Inv s st → wp (parseFunctionLiteral s n) (SP s K (parseFunctionLiteral (asLine s) n (lineSt st))) st
+  pBi : ∀ st, Inv s st → wp (parseBuiltin s n) (SP s K (parseBuiltin (asLine s) n (lineSt st))) st
+  pCall : ∀ f st, Inv s st → wp (parseCallExpression s n f) (SP s K (parseCallExpression (asLine s) n f (lineSt st))) st
+  pList : ∀ e st, e ≠ .EOF → e ≠ .EOL → Inv s st → wp (parseExpressionList s n e) (SP s K (parseExpressionList (asLine s) n e (lineSt st))) st
+  pListLoop : ∀ args st, Inv s st → wp (parseExpressionListLoop s n args) (SP s K (parseExpressionListLoop (asLine s) n args (lineSt st))) st
+  pIdx : ∀ left st, Inv s st → wp (parseIndexExpression s n left) (SP s K (parseIndexExpression (asLine s) n left (lineSt st))) st
+  pMap : ∀ st, Inv s st → wp (parseMapLiteral s n) (SP s K (parseMapLiteral (asLine s) n (lineSt st))) st
+  pMapLoop : ∀ tok kvs st, Inv s st → wp (parseMapLoop s n tok kvs) (SP s K (parseMapLoop (asLine s) n tok kvs (lineSt st))) st
+  pMac : ∀ st, Inv s st → wp (parseMacroLiteral s n) (SP s K (parseMacroLiteral (asLine s) n (lineSt st))) st
+
+set_option hygiene false in
+macro "sim1" : tactic => `(tactic| first
+  | done
+  | trivial
+  | cinv
+  | exact SP_of_badI (BadI.setCont (by cinv))
+  | exact SP_of_badI (BadI.pushErr _ (by cinv))
+  | apply errorLine_wp
+  | scall (expectPeek_sim (K := K) _ (by first | assumption | decide) (by first | assumption | decide) _ (by cinv))
+  | (refine wp_SP_of_pres (noPrefix_bad _ (by cinv)))
+  | scall (mapPairError_sim (K := K) _ (by cinv))
+  | scall (parseFunctionParameters_sim hE _ _ (by cinv))
+  | scall (parseIdentifier_sim (K := K) _ (by cinv) (by assumption))
+  | scall (parseIntegerLiteral_sim (K := K) _ (by cinv) (by assumption))
+  | scall (parseFloatLiteral_sim (K := K) _ (by cinv) (by assumption))
+  | scall (parseBoolean_sim (K := K) _ (by cinv) (by assumption))
+  | scall (parseStringLiteral_sim (K := K) _ (by cinv) (by assumption))
+  | scall (parseControlExpression_sim (K := K) _ (by cinv) (by assumption))
+  | scall (parseComment_sim (K := K) _ (by cinv) (by assumption))
+  | scall (ih.pE _ _ (by cinv))
+  | scall (ih.pLoop _ _ _ (by cinv))
+  | scall (ih.pPre _ _ (by cinv))
+  | scall (ih.pInf _ _ _ (by cinv))
+  | scall (ih.pStmt _ (by cinv))
+  | scall (ih.pRet _ (by cinv))
+  | scall (ih.pArr _ (by cinv))
+  | scall (ih.pGrp _ (by cinv))
+  | scall (ih.pPfx _ (by cinv))
+  | scall (ih.pLam _ _ _ (by cinv))
+  | scall (ih.pInfix _ _ (by cinv))
+  | scall (ih.pFor _ (by cinv))
+  | scall (ih.pIf _ (by cinv))
+  | scall (ih.pBlk _ (by cinv))
+  | scall (ih.pBlkLoop _ _ (by cinv))
+  | scall (ih.pFn _ (by cinv))
+  | scall (ih.pBi _ (by cinv))
+  | scall (ih.pCall _ _ (by cinv))
+  | scall (ih.pList _ _ (by first | assumption | decide) (by first | assumption | decide) (by cinv))
+  | scall (ih.pListLoop _ _ (by cinv))
+  | scall (ih.pIdx _ _ (by cinv))
+  | scall (ih.pMap _ (by cinv))
+  | scall (ih.pMapLoop _ _ _ (by cinv))
+  | scall (ih.pMac _ (by cinv))
+  | (refine ite_of_both (fun _ => ?_) (fun _ => ?_))
+  | split
+  | (exfalso; simp_all; done))
+
+set_option hygiene false in
+macro "simw" : tactic => `(tactic| repeat' (sv; sv; sim1))
+
+theorem sstep_pE (hE : EndAt s K) {n : Nat} (ih : AllSim s K n) : ∀ P st, Inv s st → wp (parseExpression s (n + 1) P) (SP s K (parseExpression (asLine s) (n + 1) P (lineSt st))) st := by
+  intro P st hi
+  have ihB := allPres (s := s) (K := K) n
+  by_cases hb : Bad K st
+  · exact wp_SP_of_pres ((allPres (n + 1)).pE P st ⟨hi, hb⟩)
+  have hc : lineTok st.cur = st.cur := lineTok_self (cur_real hE hi hb)
+  unfold parseExpression
+  simw
+
+theorem sstep_pLoop (hE : EndAt s K) {n : Nat} (ih : AllSim s K n) : ∀ P left st, Inv s st → wp (parseExpressionLoop s (n + 1) P left) (SP s K (parseExpressionLoop (asLine s) (n + 1) P left (lineSt st))) st := by
+  intro P left st hi
+  have ihB := allPres (s := s) (K := K) n
+  by_cases hb : Bad K st
+  · exact wp_SP_of_pres ((allPres (n + 1)).pLoop P left st ⟨hi, hb⟩)
+  have hc : lineTok st.cur = st.cur := lineTok_self (cur_real hE hi hb)
+  unfold parseExpressionLoop
+  simw
+
+theorem sstep_pPre (hE : EndAt s K) {n : Nat} (ih : AllSim s K n) : ∀ fn st, Inv s st → wp (prefixDispatch s (n + 1) fn) (SP s K (prefixDispatch (asLine s) (n + 1) fn (lineSt st))) st := by
+  intro fn st hi
+  have ihB := allPres (s := s) (K := K) n
+  by_cases hb : Bad K st
+  · exact wp_SP_of_pres ((allPres (n + 1)).pPre fn st ⟨hi, hb⟩)
+  have hc : lineTok st.cur = st.cur := lineTok_self (cur_real hE hi hb)
+  unfold prefixDispatch
+  simw
+
+theorem sstep_pInf (hE : EndAt s K) {n : Nat} (ih : AllSim s K n) : ∀ fn left st, Inv s st → wp (infixDispatch s (n + 1) fn left) (SP s K (infixDispatch (asLine s) (n + 1) fn left (lineSt st))) st := by
+  intro fn left st hi
+  have ihB := allPres (s := s) (K := K) n
+  by_cases hb : Bad K st
+  · exact wp_SP_of_pres ((allPres (n + 1)).pInf fn left st ⟨hi, hb⟩)
+  have hc : lineTok st.cur = st.cur := lineTok_self (cur_real hE hi hb)
+  unfold infixDispatch
+  simw
+
+theorem sstep_pStmt (hE : EndAt s K) {n : Nat} (ih : AllSim s K n) : ∀ st, Inv s st → wp (parseStatement s (n + 1)) (SP s K (parseStatement (asLine s) (n + 1) (lineSt st))) st := by
+  intro st hi
+  have ihB := allPres (s := s) (K := K) n
+  by_cases hb : Bad K st
+  · exact wp_SP_of_pres ((allPres (n + 1)).pStmt  st ⟨hi, hb⟩)
+  have hc : lineTok st.cur = st.cur := lineTok_self (cur_real hE hi hb)
+  unfold parseStatement
+  sv
+  split
+  · simw
+  · refine wp_conseq (ih.pE _ _ (by cinv)) ?_
+    rintro b stm ⟨hi', hb' | hs'⟩
+    · have hB' : BadI s K stm := ⟨hi', hb'⟩
+      badcase
+    · simp only [app_bind_of_eq hs']
+      simw
+
+theorem sstep_pRet (hE : EndAt s K) {n : Nat} (ih : AllSim s K n) : ∀ st, Inv s st → wp (parseReturnStatement s (n + 1)) (SP s K (parseReturnStatement (asLine s) (n + 1) (lineSt st))) st := by
+  intro st hi
+  have ihB := allPres (s := s) (K := K) n
+  by_cases hb : Bad K st
+  · exact wp_SP_of_pres ((allPres (n + 1)).pRet  st ⟨hi, hb⟩)
+  have hc : lineTok st.cur = st.cur := lineTok_self (cur_real hE hi hb)
+  unfold parseReturnStatement
+  simw
+
+theorem sstep_pArr (hE : EndAt s K) {n : Nat} (ih : AllSim s K n) : ∀ st, Inv s st → wp (parseArrayLiteral s (n + 1)) (SP s K (parseArrayLiteral (asLine s) (n + 1) (lineSt st))) st := by
+  intro st hi
+  have ihB := allPres (s := s) (K := K) n
+  by_cases hb : Bad K st
+  · exact wp_SP_of_pres ((allPres (n + 1)).pArr  st ⟨hi, hb⟩)
+  have hc : lineTok st.cur = st.cur := lineTok_self (cur_real hE hi hb)
+  unfold parseArrayLiteral
+  simw
+
+set_option maxHeartbeats 3200000 in
+theorem sstep_pGrp (hE : EndAt s K) {n : Nat} (ih : AllSim s K n) : ∀ st, Inv s st → wp (parseGroupedExpression s (n + 1)) (SP s K (parseGroupedExpression (asLine s) (n + 1) (lineSt st))) st := by
+  intro st hi
+  have ihB := allPres (s := s) (K := K) n
+  by_cases hb : Bad K st
+  · exact wp_SP_of_pres ((allPres (n + 1)).pGrp  st ⟨hi, hb⟩)
+  have hc : lineTok st.cur = st.cur := lineTok_self (cur_real hE hi hb)
+  unfold parseGroupedExpression
+  simw
+
+theorem sstep_pPfx (hE : EndAt s K) {n : Nat} (ih : AllSim s K n) : ∀ st, Inv s st → wp (parsePrefixExpression s (n + 1)) (SP s K (parsePrefixExpression (asLine s) (n + 1) (lineSt st))) st := by
+  intro st hi
+  have ihB := allPres (s := s) (K := K) n
+  by_cases hb : Bad K st
+  · exact wp_SP_of_pres ((allPres (n + 1)).pPfx  st ⟨hi, hb⟩)
+  have hc : lineTok st.cur = st.cur := lineTok_self (cur_real hE hi hb)
+  unfold parsePrefixExpression
+  simw
+
+set_option maxHeartbeats 3200000 in
+theorem sstep_pLam (hE : EndAt s K) {n : Nat} (ih : AllSim s K n) : ∀ left more st, Inv s st → wp (parseLambdaMulti s (n + 1) left more) (SP s K (parseLambdaMulti (asLine s) (n + 1) left more (lineSt st))) st := by
+  intro left more st hi
+  have ihB := allPres (s := s) (K := K) n
+  by_cases hb : Bad K st
+  · exact wp_SP_of_pres ((allPres (n + 1)).pLam left more st ⟨hi, hb⟩)
+  have hc : lineTok st.cur = st.cur := lineTok_self (cur_real hE hi hb)
+  unfold parseLambdaMulti
+  simw
+
+theorem sstep_pInfix (hE : EndAt s K) {n : Nat} (ih : AllSim s K n) : ∀ left st, Inv s st → wp (parseInfixExpression s (n + 1) left) (SP s K (parseInfixExpression (asLine s) (n + 1) left (lineSt st))) st := by
+  intro left st hi
+  have ihB := allPres (s := s) (K := K) n
+  by_cases hb : Bad K st
+  · exact wp_SP_of_pres ((allPres (n + 1)).pInfix left st ⟨hi, hb⟩)
+  have hc : lineTok st.cur = st.cur := lineTok_self (cur_real hE hi hb)
+  unfold parseInfixExpression
+  simw
+
+theorem sstep_pFor (hE : EndAt s K) {n : Nat} (ih : AllSim s K n) : ∀ st, Inv s st → wp (parseForExpression s (n + 1)) (SP s K (parseForExpression (asLine s) (n + 1) (lineSt st))) st := by
+  intro st hi
+  have ihB := allPres (s := s) (K := K) n
+  by_cases hb : Bad K st
+  · exact wp_SP_of_pres ((allPres (n + 1)).pFor  st ⟨hi, hb⟩)
+  have hc : lineTok st.cur = st.cur := lineTok_self (cur_real hE hi hb)
+  unfold parseForExpression
+  simw
+
+set_option maxHeartbeats 3200000 in
+theorem sstep_pIf (hE : EndAt s K) {n : Nat} (ih : AllSim s K n) : ∀ st, Inv s st → wp (parseIfExpression s (n + 1)) (SP s K (parseIfExpression (asLine s) (n + 1) (lineSt st))) st := by
+  intro st hi
+  have ihB := allPres (s := s) (K := K) n
+  by_cases hb : Bad K st
+  · exact wp_SP_of_pres ((allPres (n + 1)).pIf  st ⟨hi, hb⟩)
+  have hc : lineTok st.cur = st.cur := lineTok_self (cur_real hE hi hb)
+  unfold parseIfExpression
+  simw
+
+theorem sstep_pBlk (hE : EndAt s K) {n : Nat} (ih : AllSim s K n) : ∀ st, Inv s st → wp (parseBlockStatement s (n + 1)) (SP s K (parseBlockStatement (asLine s) (n + 1) (lineSt st))) st := by
+  intro st hi
+  have ihB := allPres (s := s) (K := K) n
+  by_cases hb : Bad K st
+  · exact wp_SP_of_pres ((allPres (n + 1)).pBlk  st ⟨hi, hb⟩)
+  have hc : lineTok st.cur = st.cur := lineTok_self (cur_real hE hi hb)
+  unfold parseBlockStatement
+  simw
+
+theorem sstep_pBlkLoop (hE : EndAt s K) {n : Nat} (ih : AllSim s K n) : ∀ acc st, Inv s st → wp (parseBlockLoop s (n + 1) acc) (SP s K (parseBlockLoop (asLine s) (n + 1) acc (lineSt st))) st := by
+  intro acc st hi
+  have ihB := allPres (s := s) (K := K) n
+  by_cases hb : Bad K st
+  · exact wp_SP_of_pres ((allPres (n + 1)).pBlkLoop acc st ⟨hi, hb⟩)
+  have hc : lineTok st.cur = st.cur := lineTok_self (cur_real hE hi hb)
+  unfold parseBlockLoop
+  simw
+
+set_option maxHeartbeats 3200000 in
+theorem sstep_pFn (hE : EndAt s K) {n : Nat} (ih : AllSim s K n) : ∀ st, Inv s st → wp (parseFunctionLiteral s (n + 1)) (SP s K (parseFunctionLiteral (asLine s) (n + 1) (lineSt st))) st := by
+  intro st hi
+  have ihB := allPres (s := s) (K := K) n
+  by_cases hb : Bad K st
+  · exact wp_SP_of_pres ((allPres (n + 1)).pFn  st ⟨hi, hb⟩)
+  have hc : lineTok st.cur = st.cur := lineTok_self (cur_real hE hi hb)
+  unfold parseFunctionLiteral
+  simw
+
+theorem sstep_pBi (hE : EndAt s K) {n : Nat} (ih : AllSim s K n) : ∀ st, Inv s st → wp (parseBuiltin s (n + 1)) (SP s K (parseBuiltin (asLine s) (n + 1) (lineSt st))) st := by
+  intro st hi
+  have ihB := allPres (s := s) (K := K) n
+  by_cases hb : Bad K st
+  · exact wp_SP_of_pres ((allPres (n + 1)).pBi  st ⟨hi, hb⟩)
+  have hc : lineTok st.cur = st.cur := lineTok_self (cur_real hE hi hb)
+  unfold parseBuiltin
+  simw
+
+theorem sstep_pCall (hE : EndAt s K) {n : Nat} (ih : AllSim s K n) : ∀ f st, Inv s st → wp (parseCallExpression s (n + 1) f) (SP s K (parseCallExpression (asLine s) (n + 1) f (lineSt st))) st := by
+  intro f st hi
+  have ihB := allPres (s := s) (K := K) n
+  by_cases hb : Bad K st
+  · exact wp_SP_of_pres ((allPres (n + 1)).pCall f st ⟨hi, hb⟩)
+  have hc : lineTok st.cur = st.cur := lineTok_self (cur_real hE hi hb)
+  unfold parseCallExpression
+  simw
+
+theorem sstep_pList (hE : EndAt s K) {n : Nat} (ih : AllSim s K n) : ∀ e st, e ≠ .EOF → e ≠ .EOL → Inv s st → wp (parseExpressionList s (n + 1) e) (SP s K (parseExpressionList (asLine s) (n + 1) e (lineSt st))) st := by
+  intro e st he1 he2 hi
+  have ihB := allPres (s := s) (K := K) n
+  by_cases hb : Bad K st
+  · exact wp_SP_of_pres ((allPres (n + 1)).pList e st ⟨hi, hb⟩)
+  have hc : lineTok st.cur = st.cur := lineTok_self (cur_real hE hi hb)
+  unfold parseExpressionList
+  simw
+
+theorem sstep_pListLoop (hE : EndAt s K) {n : Nat} (ih : AllSim s K n) : ∀ args st, Inv s st → wp (parseExpressionListLoop s (n + 1) args) (SP s K (parseExpressionListLoop (asLine s) (n + 1) args (lineSt st))) st := by
+  intro args st hi
+  have ihB := allPres (s := s) (K := K) n
+  by_cases hb : Bad K st
+  · exact wp_SP_of_pres ((allPres (n + 1)).pListLoop args st ⟨hi, hb⟩)
+  have hc : lineTok st.cur = st.cur := lineTok_self (cur_real hE hi hb)
+  unfold parseExpressionListLoop
+  simw
+
+theorem sstep_pIdx (hE : EndAt s K) {n : Nat} (ih : AllSim s K n) : ∀ left st, Inv s st → wp (parseIndexExpression s (n + 1) left) (SP s K (parseIndexExpression (asLine s) (n + 1) left (lineSt st))) st := by
+  intro left st hi
+  have ihB := allPres (s := s) (K := K) n
+  by_cases hb : Bad K st
+  · exact wp_SP_of_pres ((allPres (n + 1)).pIdx left st ⟨hi, hb⟩)
+  have hc : lineTok st.cur = st.cur := lineTok_self (cur_real hE hi hb)
+  unfold parseIndexExpression
+  simw
+
+theorem sstep_pMap (hE : EndAt s K) {n : Nat} (ih : AllSim s K n) : ∀ st, Inv s st → wp (parseMapLiteral s (n + 1)) (SP s K (parseMapLiteral (asLine s) (n + 1) (lineSt st))) st := by
+  intro st hi
+  have ihB := allPres (s := s) (K := K) n
+  by_cases hb : Bad K st
+  · exact wp_SP_of_pres ((allPres (n + 1)).pMap  st ⟨hi, hb⟩)
+  have hc : lineTok st.cur = st.cur := lineTok_self (cur_real hE hi hb)
+  unfold parseMapLiteral
+  simw
+
+set_option maxHeartbeats 3200000 in
+theorem sstep_pMapLoop (hE : EndAt s K) {n : Nat} (ih : AllSim s K n) : ∀ tok kvs st, Inv s st → wp (parseMapLoop s (n + 1) tok kvs) (SP s K (parseMapLoop (asLine s) (n + 1) tok kvs (lineSt st))) st := by
+  intro tok kvs st hi
+  have ihB := allPres (s := s) (K := K) n
+  by_cases hb : Bad K st
+  · exact wp_SP_of_pres ((allPres (n + 1)).pMapLoop tok kvs st ⟨hi, hb⟩)
+  have hc : lineTok st.cur = st.cur := lineTok_self (cur_real hE hi hb)
+  unfold parseMapLoop
+  simw
+
+set_option maxHeartbeats 3200000 in
+theorem sstep_pMac (hE : EndAt s K) {n : Nat} (ih : AllSim s K n) : ∀ st, Inv s st → wp (parseMacroLiteral s (n + 1)) (SP s K (parseMacroLiteral (asLine s) (n + 1) (lineSt st))) st := by
+  intro st hi
+  have ihB := allPres (s := s) (K := K) n
+  by_cases hb : Bad K st
+  · exact wp_SP_of_pres ((allPres (n + 1)).pMac  st ⟨hi, hb⟩)
+  have hc : lineTok st.cur = st.cur := lineTok_self (cur_real hE hi hb)
+  unfold parseMacroLiteral
+  simw
+
+theorem allSim_zero : AllSim s K 0 := by
+  constructor <;> intros <;> first
+    | (unfold parseExpression; exact trivial)
+    | (unfold parseExpressionLoop; exact trivial)
+    | (unfold prefixDispatch; exact trivial)
+    | (unfold infixDispatch; exact trivial)
+    | (unfold parseStatement; exact trivial)
+    | (unfold parseReturnStatement; exact trivial)
+    | (unfold parseArrayLiteral; exact trivial)
+    | (unfold parseGroupedExpression; exact trivial)
+    | (unfold parsePrefixExpression; exact trivial)
+    | (unfold parseLambdaMulti; exact trivial)
+    | (unfold parseInfixExpression; exact trivial)
+    | (unfold parseForExpression; exact trivial)
+    | (unfold parseIfExpression; exact trivial)
+    | (unfold parseBlockStatement; exact trivial)
+    | (unfold parseBlockLoop; exact trivial)
+    | (unfold parseFunctionLiteral; exact trivial)
+    | (unfold parseBuiltin; exact trivial)
+    | (unfold parseCallExpression; exact trivial)
+    | (unfold parseExpressionList; exact trivial)
+    | (unfold parseExpressionListLoop; exact trivial)
+    | (unfold parseIndexExpression; exact trivial)
+    | (unfold parseMapLiteral; exact trivial)
+    | (unfold parseMapLoop; exact trivial)
+    | (unfold parseMacroLiteral; exact trivial)
+
+theorem allSim_succ (hE : EndAt s K) {n : Nat} (ih : AllSim s K n) : AllSim s K (n + 1) where
+  pE := sstep_pE hE ih
+  pLoop := sstep_pLoop hE ih
+  pPre := sstep_pPre hE ih
+  pInf := sstep_pInf hE ih
+  pStmt := sstep_pStmt hE ih
+  pRet := sstep_pRet hE ih
+  pArr := sstep_pArr hE ih
+  pGrp := sstep_pGrp hE ih
+  pPfx := sstep_pPfx hE ih
+  pLam := sstep_pLam hE ih
+  pInfix := sstep_pInfix hE ih
+  pFor := sstep_pFor hE ih
+  pIf := sstep_pIf hE ih
+  pBlk := sstep_pBlk hE ih
+  pBlkLoop := sstep_pBlkLoop hE ih
+  pFn := sstep_pFn hE ih
+  pBi := sstep_pBi hE ih
+  pCall := sstep_pCall hE ih
+  pList := sstep_pList hE ih
+  pListLoop := sstep_pListLoop hE ih
+  pIdx := sstep_pIdx hE ih
+  pMap := sstep_pMap hE ih
+  pMapLoop := sstep_pMapLoop hE ih
+  pMac := sstep_pMac hE ih
+
+theorem allSim (hE : EndAt s K) : ∀ n, AllSim s K n
+  | 0 => allSim_zero
+  | n + 1 => allSim_succ hE (allSim hE n)
+
 end Grol.Parser
